@@ -11,8 +11,8 @@
                         break loads back as expected_table (r = false: the writer as it is; r = true: the
                         variant in which encodeCSV also quotes texts containing CR/LF)
      csv_no_shift r     ... or the load fails: never a different table
-     dialect_preserved  a re-written file is detected with the delimiter, encoding, header convention and
-                        line break it had
+     dialect_preserved  a file re-written at COMMIT is detected with the delimiter, encoding, header convention
+                        and line break it had (when the file shows a line break at all)
      ltsv_roundtrip     the same for LTSV                                                              *)
 From Coq Require Import NArith List Bool.
 Require Import Csvq.Model.Base Csvq.Model.Csv Csvq.Model.Ltsv.
@@ -137,23 +137,26 @@ Example C19_rectangular_nonvacuous :
 Proof. split; [eexists; split; vm_compute; reflexivity | vm_compute; reflexivity]. Qed.
 
 (* ================================================================ dialect ===================== *)
-(* refuted: the line break COMMIT appends is the session's, not the file's: a CRLF file left with one
-   line (its header) and re-written under --line-break LF is an LF file afterwards *)
-Theorem C02_dialect_preserved_refuted : ~ dialect_preserved.
-Proof. exact dialect_preserved_refuted. Qed.
-Print Assumptions C02_dialect_preserved_refuted.
+(* COMMIT appends the file's own line break (ec68d2d): a re-written file is detected with the delimiter,
+   encoding, header convention and line break it had -- whenever the convention is observable (the file
+   contains a line break, or the session's default is the file's) *)
+Theorem C02_dialect_preserved : dialect_preserved.
+Proof. exact dialect_preserved_lemma. Qed.
+Print Assumptions C02_dialect_preserved.
 
-(* preserved whenever the file keeps two lines, or the session's line break is the file's *)
-Theorem C02_dialect_preserved_partial :
-  forall o flb strip hdr rows letter bytes enc sess_enclose l,
-    delim_ok (o_delim o) -> well_shaped hdr rows -> spellable o hdr rows = true ->
-    (strip = true \/ flb <> LbCR) ->
-    ((2 <= lines_written o rows)%nat \/ flb = o_lb o) ->
-    csv_file o (if strip then None else Some flb) hdr rows = Some bytes ->
-    csv_load (ropts_of o) letter bytes = inr l ->
-    same_dialect o enc (dialect_after o flb enc sess_enclose l).
-Proof. exact dialect_preserved_partial_lemma. Qed.
-Print Assumptions C02_dialect_preserved_partial.
+(* the code before ec68d2d (the session's line break appended) did not have the property: a CRLF file left
+   with one line and re-written under --line-break LF was an LF file afterwards *)
+Theorem C02_dialect_session_tail_refuted : ~ dialect_preserved_for tail_of_session.
+Proof. exact dialect_session_tail_refuted. Qed.
+Print Assumptions C02_dialect_session_tail_refuted.
+
+(* the observability hypothesis is satisfiable and needed *)
+Example C02_dialect_unobservable :
+  let o := WO 44 LbCRLF false false false in
+  exists l, csv_file o (ending_line_break true (tail_of_file o LbLF)) [[97]; [98]] [] = Some [97; 44; 98] /\
+            csv_load (ropts_of o) (fun _ => false) [97; 44; 98] = inr l /\
+            ~ same_dialect o 0 (dialect_after o LbLF 0 false l).
+Proof. exact dialect_unobservable_example. Qed.
 
 (* ================================================================ LTSV ======================== *)
 (* refuted: F-C02-2 (every colon of a value after the first is dropped by the reader: 12:30 -> 1230), and
